@@ -218,7 +218,8 @@ fn run_script(s: &Sexp, args: &[Value], env: &Env) -> Result<Value, ()> {
             Ok(args.get(i).cloned().unwrap_or(Value::None))
         }
         "err" => Err(()),
-        "panic" => panic!("scripted panic"),
+        // the message carries the words of the usual run-time panics: a panic is a panic whatever it says
+        "panic" => panic!("scripted panic (attempt to add with overflow / index out of bounds / unwrap on a None value)"),
         "log" => {
             let mut items = vec![Sexp::Atom(a(1)?.to_string())];
             items.extend(args.iter().map(value_to_sexp));
@@ -326,7 +327,8 @@ struct Ctx {
 }
 
 fn make_ctx(spec: &Sexp, log: &Log) -> Option<Ctx> {
-    let mut ctx = Context::new();
+    // an empty context is made the way applications make one: with the crate's macro
+    let mut ctx = if spec.as_list().map(|l| l.is_empty()).unwrap_or(false) { expression_engine::create_context!() } else { Context::new() };
     let handle = ctx.0.clone();
     let lock: Handle = Arc::new(move || handle.lock().unwrap().len());
     let mut names = Vec::new();
